@@ -1,5 +1,7 @@
 SPECIFICATION MCSpec
 CONSTANTS Keys = {1, 2, 3, 4, 5}
+  StaleMode = "poison"
+  BugStaleLinks = FALSE
 VIEW View
-INVARIANTS TypeOK SearchTreeOrder TreeIsAllNodes ListIsInOrder CountOK
+INVARIANTS TypeOK SearchTreeOrder TreeIsAllNodes ListIsInOrder CountOK InsertIgnoresStale
 PROPERTY Refines
